@@ -18,6 +18,7 @@ func init() {
 	reg("C05", "C05.R3", "E2+E8", "low-memory pool: admission under Inc()<=capacity; Dec before waiting; back = one Dec", 1, ruleLowMemAdmission)
 	reg("C05", "C05.R4", "E2+E8", "standard pool: one Inc per get, one Dec per back, slot = counter mod capacity", 1, ruleStdPoolBalance)
 	reg("C05", "C05.R5", "E2", "finalizer gives an event back only when backEvent && !(timeout||child), once", 1, ruleFinalizerBack)
+	reg("C05", "C05.R7", "E1+E2", "every event of a batch is acknowledged: the commit loop covers batch.events[0..len) (same rule as C02.R3)", 1, ruleFIFOBatchFill)
 	reg("C05", "C05.R6", "E1+E2", "every Event literal outside the pool is re-kinded (child/timeout/unlock) on all paths", 3, ruleForeignEvents)
 }
 
